@@ -79,7 +79,7 @@ __CPROVER_ensures(/* the rule: given, else found, else the built-in rule for the
         Mutant('fragment_root_without_builtin', ET, r'        case XalanNode::DOCUMENT_FRAGMENT_NODE:\n(        case XalanNode::ELEMENT_NODE:\s*theTemplate = getStylesheet\(\)\.getStylesheetRoot\(\)\.getDefaultRule\(\);)', r'\1', expect='built-in rule'),
         Mutant('namespace_declarations_copied', ET, r'if \(DOMServices::isNamespaceDeclaration\(static_cast<const XalanAttr&>\(\*child\)\) == false\)', 'if (true)', expect='built-in rule'),
     ],
-    mechanisms=['built-in template rules', 'xsl:apply-imports'],
+    mechanisms=['built-in template rules', 'xsl:apply-imports', 'built-in rules and apply-imports scoping'],
     assumptions=['Stylesheet::findTemplate(..., onlyUseImports) is units c10_select / c10_imports; the built-in rules themselves are unit c10_builtin; rules are identified by handle',
                  'node types are the DOM constants (values repeated in the template)'],
 )
